@@ -288,6 +288,19 @@ class HistoryStream(Stream):
                 stats["fails"][name] = stats["fails"].get(name, 0) + 1
         if not step.get("merge"):
             stats["written_nomerge"] += 1
+        if step.get("merge") and parts.get("M") == "1":
+            # C09_step_merge / C09_history_merge: licences, the same holders, year ranges cover
+            stats["merge_hold"] = stats.get("merge_hold", 0) + 1
+            if parts["N"] != "1" or rec["rc"] != 0:
+                return False
+            a = G.lint_read_bytes((st["text_after"] or "").encode("utf-8"), window=False)
+            b = G.lint_read_bytes(before_text.encode("utf-8"), window=False)
+            if a is not None and b is not None:
+                year = G.year_text(step.get("year"))
+                want = (b[0] | {G.expected_notice(x, step.get("prefix"), year) for x in step.get("cpr", [])},
+                        b[1] | {G.norm_lic(x) for x in step.get("lic", [])}, set())
+                if G.missing(want, a, True):
+                    return False
         if parts["H"] != "1":
             return True
         stats["full_hold"] += 1
@@ -323,8 +336,10 @@ class HistoryStream(Stream):
         if not t["written"]:
             return
         print("C09 tie: %d steps wrote; hypotheses of C09_step_partial hold on %d, of C09_step / _crlf / _cr on %d "
-              "(of %d without --merge-copyrights), contributors tied on %d; failing hypotheses: %s"
-              % (t["written"], t["partial_hold"], t["full_hold"], t["written_nomerge"], t["con_hold"],
+              "(of %d without --merge-copyrights), contributors tied on %d, hypotheses of C09_step_merge + mergeReadsBack on %d "
+              "(of %d with --merge-copyrights); failing hypotheses: %s"
+              % (t["written"], t["partial_hold"], t["full_hold"], t["written_nomerge"], t["con_hold"], t.get("merge_hold", 0),
+                 t["written"] - t["written_nomerge"],
                  ", ".join("%s=%d" % kv for kv in sorted(t["fails"].items())) or "none"))
         try:
             from core import VERIF
